@@ -11,6 +11,8 @@ GT = "go test -vet=off -count=1 "
 TABLE = {
     'C01-m1': ([('demo/m1_demo_test.go', 'internal/c01m1')], GT + "-run TestNullableDefaultRoundTrip ./internal/c01m1/"),
     'C01-m2': ([('demo/m2_demo_test.go', 'internal/c01m2')], GT + "-run TestCookieTextRoundTrip ./internal/c01m2/"),
+    'C02-m1': ([('c02_m1_demo_test.go', '.')], GT + "-v -run TestC02M1GeneratedPackageBuilds ."),
+    'C02-m2': ([('c02_m2_demo_test.go', '.')], GT + "-v -run TestC02M2GeneratedPackageBuilds ."),
     'C03-m1': ([('demo/cases.json', 'internal/c03demo'), ('demo/demo_test.go', 'internal/c03demo'), ('demo/spec.yml', 'internal/c03demo'), ('demo/probe_test.go.txt', 'internal/c03demo')], GT + "-run TestDemo ./internal/c03demo/"),
     'C03-m2': ([('demo/cases.json', 'internal/c03demo'), ('demo/demo_test.go', 'internal/c03demo'), ('demo/spec.yml', 'internal/c03demo'), ('demo/probe_test.go.txt', 'internal/c03demo')], GT + "-run TestDemo ./internal/c03demo/"),
     'C04-m1': ([('mut_c04_m1_test.go', 'examples/ex_test_format')], "cd examples && " + GT + "-run TestMutC04M1 ./ex_test_format/"),
